@@ -10,7 +10,7 @@ import itertools
 import re
 
 from ..absint import AList, AObj, Interp, Unknown
-from ..astutil import calls_in, call_name, get_kwarg, norm, single_assignments, substitute
+from ..astutil import try_fold, calls_in, call_name, get_kwarg, norm, single_assignments, substitute
 from ..exprnorm import linear
 from ..cfg import cfg_of
 from ..core import AnalysisError
@@ -29,6 +29,8 @@ def run(repo, rep):
     rep.clause("C04-l", "the kernel seen by the block dependency calculation is the kernel that is programmed: to_kernel forwards width, height, strides and dilations")
     rep.clause("C04-m", "the address ranges of an area cover every row: get_h_ranges yields one range per row y0..y1 (interpreted with a recording stub for get_address_range)")
     rule_h_ranges(repo, rep)
+    rep.clause("C04-n", "the queue depths the wait model is sized with are the hardware's: two kernels in flight on every accelerator, two DMAs on Ethos-U65 and one on Ethos-U55 (single writer, literals)")
+    rule_queue_depths(repo, rep)
     rule_kernel_forwarding(repo, rep)
     rep.clause("C04-k", "block dependency: the operator kinds that consume the whole IFM depth agree between the stripe transform and get_ifm_ofm_block_depth (Conv2D and REDUCE_SUM)")
     rule_depth_consuming_kinds(repo, rep)
@@ -940,3 +942,48 @@ def rule_h_ranges(repo, rep):
     rep.check(wrong is None, "C04-m", "ethosu/vela/register_command_stream_util.py:get_h_ranges", f"one single-row range for each row y0..y1 ({pts} areas)",
               (f"rows {wrong[0]}..{wrong[1]} give ranges for rows {wrong[2]}: an OFM block of the previous kernel that lies strictly inside a taller IFM area is not seen by `intersects`: BLOCKDEP too "
                "large, the consumer's first job reads rows that are not written yet") if wrong else "")
+
+
+def rule_queue_depths(repo, rep):
+    """(n) the queue model of get_wait_dependency is sized by two architecture constants. The hardware keeps two kernels in flight on every
+    accelerator; DMA: two on Ethos-U65, one on Ethos-U55. ArchitectureFeatures.__init__ writes each constant at exactly the reviewed places
+    with the reviewed literal, and nothing else writes them (a U55 branch with max_outstanding_kernels = 1 drops KERNEL_WAIT 1 for a DMA that
+    conflicts with the older of two kernels)."""
+    am = repo.mod("architecture_features")
+    fn = am.func("ArchitectureFeatures.__init__")
+    site = "ethosu/vela/architecture_features.py:ArchitectureFeatures.__init__"
+    want = {"max_outstanding_kernels": {(None, 2)}, "max_outstanding_dma": {("u65", 2), ("u55", 1)}}
+    got = {k: set() for k in want}
+
+    def walk(body, ctx):
+        for st in body:
+            if isinstance(st, ast.If):
+                t = str(norm(st.test))
+                if t == "self.is_ethos_u65_system":
+                    walk(st.body, "u65")
+                    walk(st.orelse, "u55")
+                else:
+                    walk(st.body, ctx if ctx else "?" + t[:30])
+                    walk(st.orelse, ctx if ctx else "?" + t[:30])
+            elif isinstance(st, ast.Assign):
+                for tg in st.targets:
+                    if isinstance(tg, ast.Attribute) and tg.attr in want and str(norm(tg.value)) == "self":
+                        got[tg.attr].add((ctx, try_fold(st.value, default=str(norm(st.value)))))
+            elif isinstance(st, (ast.For, ast.While, ast.With, ast.Try)):
+                walk(getattr(st, "body", []), ctx)
+
+    walk(fn.body, None)
+    for k in want:
+        rep.check(got[k] == want[k], "C04-n", site, f"`self.{k}` is written as {sorted(want[k], key=str)} (branch on is_ethos_u65_system, literal)",
+                  f"written as {sorted(got[k], key=str)}: get_wait_dependency waits only for operations older than the queue depth - a depth below the hardware's drops the wait for the older outstanding operation")
+    others = []
+    for m in repo.core_modules():
+        for q, f in m.functions.items():
+            if m.rel.endswith("architecture_features.py") and q == "ArchitectureFeatures.__init__":
+                continue
+            for st in ast.walk(f):
+                if isinstance(st, (ast.Assign, ast.AugAssign)):
+                    for tg in (st.targets if isinstance(st, ast.Assign) else [st.target]):
+                        if isinstance(tg, ast.Attribute) and tg.attr in want:
+                            others.append(f"{m.rel}:{q}")
+    rep.check(not others, "C04-n", site, "no other writer of the queue depths", f"also written in {others}")
